@@ -3,8 +3,10 @@ From Coq Require Extraction.
 From Coq Require Import ExtrOcamlBasic.
 From Coq Require Import List ZArith NArith.
 From Coq.Strings Require Import Byte.
-From Muduo Require Import Base_Bytes C16_Model.
+From Muduo Require Import Base_Bytes C16_Model C16_MonModel C16_NamesModel.
 Extraction "model.ml" C16_Model.lf_new C16_Model.lf_append C16_Model.do_flush C16_Model.roll
   C16_Model.files_in_order C16_Model.current_params C16_Model.params_ok
+  C16_Model.do_close C16_MonModel.xm_init C16_MonModel.xm_section C16_MonModel.xm_files C16_MonModel.xm_left
+  C16_NamesModel.xstamp
   C16_Model.xinit C16_Model.xappend C16_Model.xback C16_Model.xstop C16_Model.xjoin
   Base_Bytes.xbyte_of_N Base_Bytes.xN_of_byte Base_Bytes.xanchor.
